@@ -35,7 +35,8 @@ RULE = ('the C14 diagram generator (classes inside and outside a component, attr
         'type, move a class into or out of the component; plus the same kind of edits at the rows of '
         'tests/resources/Simple_Model.xtuml read independently. The generated tree is serialised, re-parsed '
         'and compared as sets of declarations (attribute order is not claimed; enumerator order is). '
-        'Non-trivial = the component holds at least one class with an attribute; distinct by hash of rows.')
+        'Non-trivial = the component holds at least one class with an attribute; distinct by hash of rows.'
+        ' Also: a further data type carrying the name of one in another package (declarations compared as a multiset).')
 ASSUMPTIONS = ['supported types: the five core types boolean/integer/real/string/unique_id, enumerations, and '
                'user types over a supported base; real -> xs:decimal, unique_id -> xs:integer',
                'types in scope: global ones (outside any component) and those inside the component']
